@@ -173,8 +173,9 @@ def _treesim_summary(focus: str):
         return {
             "evaluations": hist,
             "distinct_nontrivial": distinct,
-            "rule": "one evaluation = one generated operation history (up to 30 steps after 2 initial ones) on a pool of DerivationTree objects checked against the reference model after every step; histories interleave constructing operations (replace_path, substitute, expand_one_step, parse-tree conversion, new_ids, wide nodes with 27-40 children), cache-touching observers and"
+            "rule": "one evaluation = one generated operation history (up to 30 steps after 2 initial ones) on a pool of DerivationTree objects checked against the reference model after every step; histories interleave constructing operations (replace_path, substitute, expand_one_step, parse-tree conversion, new_ids, wide nodes with 27-120 children and the widths 728-758 around the second key-encoding boundary of the trie), cache-touching observers and"
                     + (" serialisations (pickle, to_json/from_json, deepcopy, CLI JSON) plus SMTFormula pickling with adversarial string literals." if focus != "C16" else " no serialisation.")
+                    + " At the end of the last history of every run seed the pool is pickled / JSON-encoded and decoded and judged in a fresh interpreter with another PYTHONHASHSEED (process restart: only durable state survives)."
                     + " Non-trivial = history with more than 2 operations; distinct = distinct recorded op lists per seed (summed over seeds).",
             "samples": samples or [{"note": "no sample recorded"}],
             "operations_total": ops,
@@ -182,7 +183,8 @@ def _treesim_summary(focus: str):
             "hypothesis_seeds": len(lines),
             "real_components": ["isla.derivation_tree", "isla.trie", "datrie", "isla.language.SMTFormula", "isla.cli.derivation_tree_to_json", "grammar_graph (k-paths)", "z3 term construction/parsing"],
             "stubbed_components": [],
-            "faults_fired": {"cache_touch": sum(v for k, v in counters.items() if k.startswith("touch_")), "serialisation_between_ops": sum(v for k, v in counters.items() if k.startswith("serial_"))},
+            "faults_fired": {"cache_touch": sum(v for k, v in counters.items() if k.startswith("touch_")), "serialisation_between_ops": sum(v for k, v in counters.items() if k.startswith("serial_")),
+                             "process_restart_other_hash_seed": counters.get("restarts", 0), "trees_decoded_after_restart": counters.get("restart_trees_decoded", 0)},
         }
 
     return summarize
